@@ -471,7 +471,7 @@ EDGE_BUT = [
 ]
 
 
-def gen_edge_deck(rng, base_deck):
+def gen_edge_deck(rng, base_deck, index=None):
     '''A valid deck plus one or two LIKE cards with raw BUT text.'''
     deck = dict(base_deck)
     cells = list(base_deck['cells'])
@@ -482,6 +482,9 @@ def gen_edge_deck(rng, base_deck):
         ids.add(cid)
         like = rng.choice(targets) if rng.random() < 0.93 else 777
         raw = rng.choice(EDGE_BUT)
+        if index is not None:
+            # every edge text is used at least once per run
+            raw, index = EDGE_BUT[index % len(EDGE_BUT)], None
         if rng.random() < 0.3:
             raw = raw + ' ' + rng.choice(EDGE_BUT)
         if rng.random() < 0.3:
@@ -684,7 +687,7 @@ def run(res, tier, seed, proofs_ok):
     for i in range(n_edge):
         base = gen.gen_deck(rng, n_like=rng.choice([0, 1, 2]))
         gen.render(base, rng)
-        deck = gen_edge_deck(rng, base)
+        deck = gen_edge_deck(rng, base, index=i)
         text = gen.render(deck, rng)
         obs = ImplDeck(text, edge_lattice_params(rng, deck))
         res.seen(text, nontrivial=True)
